@@ -25,6 +25,8 @@ pub struct Out {
     pub err_kinds: BTreeMap<String, u64>,
     pub cover: BTreeSet<String>,
     pub samples: Vec<String>,
+    /// correspondence rows (query, implementation answer) for the model driver (mode `small`)
+    pub rows: Vec<(String, String)>,
 }
 
 impl Out {
@@ -96,6 +98,9 @@ fn try_variant<C: MlsConfig>(
         Ok(Err(e)) => {
             out.rejected += 1;
             *out.err_kinds.entry(err_class(&e)).or_default() += 1;
+            if label.starts_with("insider") {
+                *out.err_kinds.entry(format!("{label}:{}", err_class(&e))).or_default() += 1;
+            }
         }
     }
     let after = comps(&g);
@@ -240,6 +245,88 @@ fn all_process<C: MlsConfig>(w: &mut World<C>, m: &MlsMessage, from: usize, skip
     }
 }
 
+
+/// Insider with consistent hashes: member `ai` builds an empty commit, re-issues it with an update path that is too short
+/// (the leaf's parent hash recomputed for the short path, everything re-signed) or too long; every other member must
+/// reject it without panicking.  Each delivery is also a row for the model of `validate_update_path`'s un-filtering loop.
+fn short_path_variants<C: MlsConfig>(w: &World<C>, ai: usize, out: &mut Out) {
+    let mut a0 = w.group(ai).clone();
+    let Ok(o0) = a0.commit(vec![]) else { return };
+    let cm0 = o0.commit_message;
+    let cb0 = cm0.to_bytes().unwrap();
+    let sender_leaf = a0.current_member_index();
+    let mut edits: Vec<(String, InsiderEdit, i64)> =
+        (0..5usize).map(|k| (format!("insider-consistent-short-path{k}"), InsiderEdit::TruncatePathConsistent(k), k as i64)).collect();
+    edits.push(("insider-long-path".into(), InsiderEdit::ExtendPath, -1));
+    for (label, edit, keep) in edits {
+        let Ok(m2) = a0.verif_resign_commit(&cm0, &edit) else { continue };
+        let b2 = m2.to_bytes().unwrap();
+        for ri in 0..w.members.len() {
+            if ri == ai || w.members[ri].group.is_none() {
+                continue;
+            }
+            let r = w.group(ri).clone();
+            if let Ok(bits) = r.verif_filtered_direct_path(sender_leaf) {
+                let full = bits.iter().filter(|b| !**b).count() as i64;
+                let sent = if keep < 0 { full + 1 } else { keep.min(full) };
+                let mut g = r.clone();
+                let res = std::panic::catch_unwind(std::panic::AssertUnwindSafe(|| g.process_incoming_message(m2.clone())));
+                let ans = match res {
+                    Ok(Err(e)) if err_class(&e) == "WrongPathLen" => "err",
+                    Ok(_) => "ok",
+                    Err(_) => "panic",
+                };
+                let bs: String = bits.iter().map(|b| if *b { '1' } else { '0' }).collect();
+                out.rows.push((format!("unfilter {} {sent}", if bs.is_empty() { "-".to_string() } else { bs }), ans.to_string()));
+            }
+            if b2 != cb0 {
+                try_variant(&r, &format!("member{ri}"), &cm0, &cb0, &b2, &label, true, None, out);
+            }
+        }
+    }
+}
+
+/// Trees with blank subtrees (filtered direct-path nodes): a larger group, some members removed, parents repopulated by
+/// empty commits of two members, then the insider variants of every remaining member.
+fn sparse_tree_scenario<C: MlsConfig>(rng: &mut Rng, mk: Mk<C>, out: &mut Out) {
+    let n = rng.range(5, 9) as usize;
+    let Ok(Sc { mut w }) = setup(rng, mk, n, false) else { return };
+    let mut alive: Vec<usize> = (0..n).collect();
+    let removals = rng.range(1, (n as u64 - 2).min(4)) as usize;
+    let mut victims = vec![];
+    for _ in 0..removals {
+        let v = *rng.pick(&alive[1..].to_vec());
+        alive.retain(|x| *x != v);
+        victims.push(v);
+    }
+    let leaves: Vec<u32> = victims.iter().map(|v| w.group(*v).current_member_index()).collect();
+    let (_, o) = w.with_group(0, |g| {
+        let mut b = g.commit_builder();
+        for l in &leaves {
+            b = b.remove_member(*l)?;
+        }
+        b.build()
+    });
+    let Some(o) = o else { return };
+    w.with_group(0, |g| g.apply_pending_commit());
+    all_process(&mut w, &o.commit_message, 0, &victims);
+    for v in &victims {
+        w.members[*v].group = None;
+    }
+    for c in alive.iter().copied().take(3).collect::<Vec<_>>() {
+        if rng.chance(2, 3) {
+            let (_, o) = w.with_group(c, |g| g.commit(vec![]));
+            let Some(o) = o else { return };
+            w.with_group(c, |g| g.apply_pending_commit());
+            all_process(&mut w, &o.commit_message, c, &[]);
+        }
+    }
+    out.cover.insert(format!("sparse:n={n}:removed={removals}"));
+    for a in alive {
+        short_path_variants(&w, a, out);
+    }
+}
+
 pub fn scenario<C: MlsConfig>(rng: &mut Rng, mk: Mk<C>, out: &mut Out, exhaustive: bool, flips: u64) {
     let n = rng.range(3, 5) as usize;
     let enc_ctl = rng.chance(1, 2);
@@ -256,6 +343,9 @@ pub fn scenario<C: MlsConfig>(rng: &mut Rng, mk: Mk<C>, out: &mut Out, exhaustiv
     w.with_group(0, |g| g.apply_pending_commit());
     if let Some(c) = &old_commit {
         all_process(&mut w, c, 0, &[]);
+    }
+    if !enc_ctl {
+        short_path_variants(&w, 0, out);
     }
     // another group for cross-group replays
     let mut other_rng = rng.fork();
@@ -391,6 +481,8 @@ pub fn scenario<C: MlsConfig>(rng: &mut Rng, mk: Mk<C>, out: &mut Out, exhaustiv
             ("insider-resign-only", InsiderEdit::Nothing),
             ("insider-path-empty", InsiderEdit::TruncatePath(0)),
             ("insider-path-short1", InsiderEdit::TruncatePath(1)),
+            ("insider-path-empty-consistent", InsiderEdit::TruncatePathConsistent(0)),
+            ("insider-path-short1-consistent", InsiderEdit::TruncatePathConsistent(1)),
             ("insider-path-long", InsiderEdit::ExtendPath),
             ("insider-path-foreign-key0", InsiderEdit::SetPathKey(0, other_key.clone())),
             ("insider-path-fresh-key0", InsiderEdit::SetPathKey(0, fresh_key.clone())),
@@ -460,13 +552,18 @@ pub fn run(o: &Opts, focus: &str) -> i32 {
     let dir = o.str("out", &format!("/verif/work/{stem}"));
     std::fs::create_dir_all(&dir).ok();
     let mut rng = Rng::new(o.seed());
-    let mut out = Out { fails: vec![], variants: 0, rejected: 0, by_kind: Default::default(), err_kinds: Default::default(), cover: Default::default(), samples: vec![] };
+    let mut out = Out { fails: vec![], variants: 0, rejected: 0, by_kind: Default::default(), err_kinds: Default::default(), cover: Default::default(), samples: vec![], rows: vec![] };
     let mk = |s: &Setup, hd: &Handles, id, sk| mk_client(s, hd, id, sk);
     let scen = o.u64("scenarios", if o.thorough() { 40 } else { 6 });
     let flips = o.u64("flips", if o.thorough() { 3000 } else { 400 });
     for i in 0..scen {
         let mut r = rng.fork();
         scenario(&mut r, &mk, &mut out, o.thorough() && i == 0, flips);
+        if focus == "C03" {
+            for _ in 0..3 {
+                sparse_tree_scenario(&mut r, &mk, &mut out);
+            }
+        }
     }
     let rel: Vec<&(String, String)> = out.fails.iter().filter(|(p, _)| p == focus || (focus == "C04" && p == "C18")).collect();
     println!("cases {}", out.variants);
@@ -479,6 +576,11 @@ pub fn run(o: &Opts, focus: &str) -> i32 {
     std::fs::write(format!("{dir}/{stem}.failures"), rel.iter().map(|(p, w)| format!("{p}: {w}")).collect::<Vec<_>>().join("\n")).unwrap();
     std::fs::write(format!("{dir}/{stem}.allfailures"), out.fails.iter().map(|(p, w)| format!("{p}: {w}")).collect::<Vec<_>>().join("\n")).unwrap();
     std::fs::write(format!("{dir}/{stem}.samples"), out.samples.join("\n")).unwrap();
+    let mut qa = crate::util::QA::create(&dir, &stem);
+    for (q, a) in &out.rows {
+        qa.put(q, a);
+    }
+    println!("rows {}", qa.finish());
     let _ = std::fs::remove_dir_all("/tmp/vharness-scratch-mut");
     0
 }
